@@ -99,7 +99,7 @@ fn c06_q_expand_concrete_read_path() {
 #[cfg_attr(kani, kani::stub(AccessReq::allow, allow_oracle))]
 #[cfg_attr(not(kani), test)]
 #[cfg_attr(not(kani), ignore)]
-fn c06_t_expand_cache_only_for_identical_path() {
+fn c06_x_expand_cache_only_for_identical_path() {
     let a0 = [Attribute::new(0, Access::RV, Quality::NONE), Attribute::new(1, Access::RV, Quality::NONE)];
     let cl0 = [Cluster::new(10, 1, 0, &a0, &[], &[], |_, _, _| true, |_, _, _| true, |_, _, _| true)];
     let dts = [DeviceType { dtype: 0, drev: 0 }];
@@ -136,7 +136,7 @@ fn c06_t_expand_cache_only_for_identical_path() {
 #[cfg_attr(kani, kani::stub(AccessReq::allow, allow_oracle))]
 #[cfg_attr(not(kani), test)]
 #[cfg_attr(not(kani), ignore)]
-fn c06_t_expand_wildcard_leaf() {
+fn c06_x_expand_wildcard_leaf() {
     let acc1 = any_u16();
     let a0 = [
         Attribute::new(0, Access::RV, Quality::NONE),
